@@ -455,6 +455,10 @@ func runC05(c *kit.Ctx) {
 		}
 	}
 
+	// ---------- (3b) generated spellings of one path (c05_spell.go)
+	cleanup()
+	c05RunSpellings(c)
+
 	// ---------- (4) idle-close decision per audience kind
 	type idleCase struct {
 		name      string
